@@ -257,6 +257,37 @@ pub fn run(cx: &mut Cx) {
         cx.default_budget();
     }
 
+    // (a1) the count ladder: 2^8 and 2^16 lines in one record, one less and one
+    // more - the same scalar key repeated (the last line counts) among ignored lines
+    if cx.mine(3) && matches!(cx.tier, Tier::Quick | Tier::Thorough) {
+        cx.set_budget(1 << 28, 1 << 36);
+        for k in [255usize, 256, 257, 65_535, 65_536, 65_537] {
+            let mut text = String::from("PKGNAME=many-1.0\n");
+            for j in 0..k - 2 {
+                if j % 3 == 0 {
+                    text.push_str(&format!("MAINTAINER=m{j}\n"));
+                } else {
+                    text.push_str(&format!("UNKNOWN_{j}=x\n"));
+                }
+            }
+            text.push_str("MAINTAINER=the-last-one\nPKGNAME=after-2.0\nCATEGORIES=dog\n");
+            cx.check(
+                || format!("count ladder: a record of {k} lines"),
+                |ev| {
+                    ev.count("ladder/records");
+                    ev.eval();
+                    let v = ScanIndex::from_reader(text.as_bytes()).map_err(|e| format!("the read failed: {e}"))?;
+                    if v.len() != 2 || v[0].maintainer.as_deref() != Some("the-last-one") || v[1].maintainer.is_some() || v[1].categories.as_deref() != Some("dog") {
+                        return Err(format!("{} records; MAINTAINER of the first is {:?}", v.len(), v.first().and_then(|x| x.maintainer.clone())).into());
+                    }
+                    ev.nontrivial(crate::rng::hash_bytes(format!("lines{k}").as_bytes()));
+                    Ok(())
+                },
+            );
+        }
+        cx.default_budget();
+    }
+
     // (a) fault-free documents: slice reader and a chunked reader.
     let n = cx.per_shard(48, 3_000, 48_000, 480_000);
     let mut r = cx.stream("clean");
